@@ -85,8 +85,16 @@ class Context:
             path = write_replay(self.pid, f)
             print('VIOLATION property=%s replay=%s' % (self.pid, path))
             print('  rule=%s detail=%s' % (f['rule'], f['detail']))
+        shown = set()
         for m in self.incon:
-            print('INCONCLUSIVE: ' + m[:2000])
+            key = m[-200:]
+            if key in shown:
+                continue
+            shown.add(key)
+            if len(shown) > 4:
+                print('INCONCLUSIVE: ... (%d more)' % (len(self.incon) - 4))
+                break
+            print('INCONCLUSIVE: ' + m[-700:])
         cov = dict(self.coverage)
         cov['other_properties_seen'] = sorted({f['prop'] + ':' + f['rule'] for f in others})[:20]
         cov['model_drift'] = sorted({f['rule'] + ':' + str(f['detail']) for f in drift})[:10]
